@@ -17,6 +17,7 @@ def pIn : List String → Option In
   | ["pingTick"] => some .pingTick
   | ["pong:1"] => some (.pong true)
   | ["pong:0"] => some (.pong false)
+  | ["keysFlushed"] => some .keysFlushed
   | ["loop"] => some .loop
   | ["appSend"] => some .appSend
   | _ => none
@@ -32,6 +33,7 @@ def lifeOut : Out → String
 
 def lifeStep (s : St) : List String → St × String
   | ["reset", r, p] => ({ reconnectOpt := r == "1", passive := p == "1" }, "ok")
+  | ["reset", r, p, c] => ({ reconnectOpt := r == "1", passive := p == "1", control := c == "1" }, "ok")
   | "allowed" :: rest =>
     match pIn rest with
     | some i => (s, if Allowed s i then "1" else "0")
